@@ -2,6 +2,9 @@
 EXTENDS Threads
 G(n) == [op |-> "get", n |-> n]
 P(n) == [op |-> "put", n |-> n]
+V(n) == [op |-> "putvia", n |-> n]
+\* one thread releases through a container of its own while the others use get / put
+ProgVia == <<<<G(1), V(1)>>, <<G(1), G(2), P(1), V(2)>>, <<G(2), P(2)>>>>
 Prog2 == <<<<G(1), P(1)>>, <<G(1), P(1)>>>>
 Prog3 == <<<<G(1), P(1)>>, <<G(1), G(2), P(1), P(2)>>, <<G(2), P(2)>>>>
 \* the last references, one per thread, released concurrently (nobody else holds one)
